@@ -36,7 +36,10 @@ func init() {
 	)
 	registry.RegisterAnyConverter(reflect.TypeOf((*Time)(nil)),
 		func(in any) (any, bool) {
-			return in.(*Time).Value, true
+			if v := in.(*Time); v != nil {
+				return v.Value, true
+			}
+			return time.Time{}, true
 		},
 	)
 
@@ -51,7 +54,10 @@ func init() {
 	)
 	registry.RegisterAnyConverter(reflect.TypeOf((*Location)(nil)),
 		func(in any) (any, bool) {
-			return in.(*Location).Value, true
+			if v := in.(*Location); v != nil {
+				return v.Value, true
+			}
+			return (*time.Location)(nil), true
 		},
 	)
 }
